@@ -13,7 +13,7 @@
 (* instruction i lives at byte address 4*i.                                *)
 (*                                                                         *)
 (* A machine state is a record                                             *)
-(*   [pc, regs, mem, status, n, cyc1, pcs, addrs]                          *)
+(*   [pc, regs, mem, status, n, cyc1, pcs, addrs, ev]                      *)
 (*  regs : register name -> Word (the zero register is not stored)         *)
 (*  mem  : sparse function address -> 0..255 over an image (see ImgByte)   *)
 (*  status \in {"run","ret","end","err","oob","misaligned","fuel"}         *)
@@ -164,7 +164,7 @@ Cyc1(i, eff) ==
 
 InitState(regs) ==
   [pc |-> 0, regs |-> regs, mem |-> <<>>, status |-> "run", n |-> 0, cyc1 |-> 0,
-   pcs |-> <<>>, addrs |-> <<>>]
+   pcs |-> <<>>, addrs |-> <<>>, ev |-> <<>>]
 
 (* one sequential step *)
 Step(prog, st, img, memSize) ==
@@ -173,7 +173,11 @@ Step(prog, st, img, memSize) ==
   ELSE
     LET i == prog[st.pc \div 4 + 1]
         e == Effect(i, st.pc, st.regs, st.mem, img, memSize, Len(prog))
-        st1 == [st EXCEPT !.n = @ + 1, !.cyc1 = @ + Cyc1(i, e), !.pcs = Append(@, st.pc \div 4)]
+        st1 == [st EXCEPT !.n = @ + 1, !.cyc1 = @ + Cyc1(i, e), !.pcs = Append(@, st.pc \div 4),
+                          \* ev: executed instruction index, accessed address (-1 if none), taken control transfer
+                          !.ev = Append(@, [i |-> st.pc \div 4,
+                                            a |-> IF e.kind \in {"reg", "mem"} /\ i.op \in LoadOps \cup StoreOps THEN e.addr ELSE -1,
+                                            t |-> e.kind \in {"reg", "none"} /\ (e.next # st.pc + 4 \/ i.op \in JumpOps)])]
     IN
     CASE e.kind = "reg" -> [st1 EXCEPT !.regs = WReg(@, e.rd, e.val), !.pc = e.next,
                                         !.addrs = IF i.op \in LoadOps THEN Append(@, e.addr) ELSE @]
